@@ -257,37 +257,66 @@ def run(prog, rep, tier):
             ok = okb and okr and okp
         rep.ob('R19.4', ok, 'R19.4|%s|secret-from-generator' % gp.nkey, '32 bytes from fill_bytes(csprng) -> StaticSecret::from -> PublicKey::from(&secret)' if ok else
                'key pair is not computed from 32 generator bytes as documented', gp.loc())
-        # DER assembly
-        agg = [s for b in gp.blocks for s in b.stmts if s.kind == 'assign' and s.rv.r == 'aggregate' and s.rv.j.get('adt') == 'KeyPair']
+        # DER assembly (on the body with private helpers spliced in: the prefix || key layout may be built by a shared helper)
+        from ..inline import inlined_body
+        g2 = inlined_body(prog, gp)
+        agg = [s for b in g2.blocks for s in b.stmts if s.kind == 'assign' and s.rv.r == 'aggregate' and s.rv.j.get('adt') == 'KeyPair']
         if len(agg) == 1 and ok:
             s = agg[0]
+            secret_buf = set(owners_of(g2, ss[0].term.args[0]))
             for fld, prefix_const, payload in (('private_der', 'PRIV_KEY_PREFIX', 'private'), ('public_der', 'PUB_KEY_PREFIX', 'public')):
                 op = s.rv.ops[s.rv.j['fields'].index(fld)]
-                owners = owners_of(gp, op)
-                fills = sorted([f for l in owners for f in buffer_fill(gp, l)], key=lambda f: len(gp.doms[f[0]]))
-                good = len(fills) == 2 and all(f[1].cmethod == 'copy_from_slice' for f in fills)
-                if good:
-                    c0 = const_of(gp, fills[0][1].args[1])
-                    good = c0 is not None and (c0.get('def') or '') == prefix_const
-                    so = origins(gp, [fills[1][1].args[1].place[0]])
-                    if payload == 'private':
-                        good = good and any(l in so.locals for l in owners_of(gp, ss[0].term.args[0]))
+                owners = set(owners_of(g2, op))
+
+                def is_prefix_len(o_):
+                    if o_ is None or o_.place is None:
+                        return False
+                    lo = origins(g2, [o_.place[0]])
+                    return any((k.get('def') or '') == prefix_const for k in lo.consts) and any(g2.blocks[x].term.cmethod == 'len' for x in lo.calls) and not lo.binops
+
+                parts = []
+                for cb in g2.calls():
+                    ct = cb.term
+                    if ct.cmethod != 'copy_from_slice' or ct.args[0].place is None or ct.args[1].place is None and ct.args[1].kind != 'const':
+                        continue
+                    do = origins(g2, [ct.args[0].place[0]])
+                    if not (do.locals & owners):
+                        continue
+                    where = set()
+                    for x in do.calls:
+                        xt = g2.blocks[x].term
+                        if xt.cmethod == 'index_mut' and len(xt.args) >= 2:
+                            e = expr_of(g2, xt.args[1])
+                            if e[0] == 'agg' and e[3].ops and is_prefix_len(e[3].ops[0]):
+                                nm = e[3].j.get('adt', '').rsplit('::', 1)[-1]
+                                where.add({'RangeTo': 'head', 'RangeFrom': 'tail'}.get(nm, '?'))
+                            else:
+                                where.add('?')
+                        elif xt.cmethod == 'split_at_mut' and len(xt.args) >= 2:
+                            if is_prefix_len(xt.args[1]):
+                                half = {ix for f in do.fields_ix for (of, ix) in f if of.startswith(('(&mut [u8]', '([u8]'))}
+                                where.add({0: 'head', 1: 'tail'}.get(next(iter(half)), '?') if len(half) == 1 else '?')
+                            else:
+                                where.add('?')
+                    c1 = const_of(g2, ct.args[1])
+                    so = origins(g2, [ct.args[1].place[0]]) if ct.args[1].place is not None else None
+                    if c1 is not None and (c1.get('def') or '') == prefix_const:
+                        what = 'prefix'
+                    elif so is not None and any((k.get('def') or '') == prefix_const for k in so.consts) and not so.calls - {x for x in so.calls if g2.blocks[x].term.cmethod in ('deref', 'as_ref', 'as_slice')}:
+                        what = 'prefix'
+                    elif so is not None and payload == 'private' and (so.locals & secret_buf):
+                        what = 'key'
+                    elif so is not None and payload == 'public' and pk[0].idx in so.calls:
+                        what = 'key'
                     else:
-                        good = good and pk[0].idx in so.calls
-                    # ranges: [..len(prefix)] and [len(prefix)..]
-                    rngs = []
-                    for f in fills:
-                        do = origins(gp, [f[1].args[0].place[0]])
-                        for cb in do.calls:
-                            ct = gp.blocks[cb].term
-                            if ct.cmethod == 'index_mut':
-                                e = expr_of(gp, ct.args[1])
-                                if e[0] == 'agg':
-                                    lo = origins(gp, [e[3].ops[0].place[0]]) if e[3].ops and e[3].ops[0].place else None
-                                    isprefixlen = lo is not None and any((k.get('def') or '') == prefix_const for k in lo.consts) and any(gp.blocks[x].term.cmethod == 'len' for x in lo.calls)
-                                    rngs.append((e[3].j.get('adt', '').rsplit('::', 1)[-1], isprefixlen))
-                    good = good and rngs == [('RangeTo', True), ('RangeFrom', True)]
-                rep.ob('R19.4', good, 'R19.4|%s|%s-layout' % (gp.nkey, fld), '%s = %s || %s bytes' % (fld, prefix_const, payload) if good else '%s is not assembled as %s || key bytes' % (fld, prefix_const), gp.loc())
+                        what = '?'
+                    parts.append((sorted(where), what))
+                good = sorted(parts) == [(['head'], 'prefix'), (['tail'], 'key')]
+                # nothing else writes into the buffer
+                other = [f for l in owners for f in buffer_fill(g2, l) if f[1].cmethod not in ('copy_from_slice', 'index_mut', 'split_at_mut', 'deref_mut', 'as_mut', 'as_mut_slice')]
+                good = good and not other
+                rep.ob('R19.4', good, 'R19.4|%s|%s-layout' % (gp.nkey, fld), '%s = %s || %s bytes' % (fld, prefix_const, payload) if good else
+                       '%s is not assembled as %s || key bytes (copies found: %s)' % (fld, prefix_const, parts), gp.loc())
     for cname, want in (('PRIV_KEY_PREFIX', T['der']['priv_prefix_hex']), ('PUB_KEY_PREFIX', T['der']['pub_prefix_hex'])):
         got = cp.const_bytes(cname)
         ok = got is not None and got.hex() == want
